@@ -112,3 +112,10 @@ prop("C09", fucs=["liquer.context.Context.evaluate_action"])
 prop("C04", fucs=["liquer.context.Context.evaluate_action"])
 prop("C06", fucs=["liquer.context.Context.evaluate_action"])
 prop("C18", fucs=["liquer.context.Context.evaluate_action"])
+
+# cache transparency also needs the in-memory cache to keep and hand out its own copies (a result mutated by the caller after
+# evaluate() must not change what a later evaluation is served): the ownership obligations of C10, on the same source
+prop("C04", static=[
+    ("owned", "liquer.cache.MemoryCache.store", "the-cache-keeps-its-own-copy", "item:storage"),
+    ("owned", "liquer.cache.MemoryCache.get", "the-cache-hands-out-a-copy", "return"),
+])
